@@ -31,12 +31,26 @@ def sh(cmd, cwd=None, env=None, timeout=3600):
 
 def main():
     ap = argparse.ArgumentParser()
-    ap.add_argument("cmd", choices=["confirm"])
+    ap.add_argument("cmd", choices=["confirm", "related"])
     ap.add_argument("name")
     ap.add_argument("--checks", default="")
     ap.add_argument("--tier", default="quick")
     ap.add_argument("--seed", default="0")
     a = ap.parse_args()
+    if a.cmd == "related":
+        # properties whose anchored files are touched by the patch (plus the seed's own property)
+        d = os.path.join(VERIF, "seeded", a.name)
+        if not os.path.isdir(d):
+            d = os.path.join(VERIF, "seeded", "_pending", a.name)
+        files = set(re.findall(r"^\+\+\+ b/(\S+)", open(os.path.join(d, "patch.diff")).read(), re.M))
+        own = re.match(r"(C\d+)", a.name).group(1)
+        rel = [own]
+        for l in open(os.path.join(VERIF, "properties.jsonl")):
+            pr = json.loads(l)
+            if pr["id"] != own and files & set(pr["anchors"].get("files", [])):
+                rel.append(pr["id"])
+        print(",".join(rel))
+        return 0
     src = os.path.join(VERIF, "seeded", "_pending", a.name)
     if not os.path.isdir(src):
         src = os.path.join(VERIF, "seeded", a.name)
